@@ -4,12 +4,14 @@
    them: a Connected container contains X iff all its boundaries' simple shapes do; a Disjoint
    container contains a connected X iff some component does, a Disjoint X iff it contains every
    component of X; and SOUNDNESS of the curve-in-shape test for polygons in general position
-   (C03_curve_in_shape_sound).  NOT proved (partial): completeness of that test, and that the
-   area/orientation case analysis of simple-in-simple on top of it decides subset -- oracle on
+   (C03_curve_in_shape_sound) and its COMPLETENESS (C03_curve_in_shape_complete): in general
+   position `J in A` decides "every point of J is a point of A" (C03_curve_in_shape_iff).
+   NOT proved (partial): that the area/orientation case analysis of simple-in-simple on top of
+   it decides subset of REGIONS (that needs the Jordan curve theorem for polygons) -- oracle on
    every run (exact subset decision by slab sampling).
    Two defects in exactly that part were found and repaired (known_findings.json: F10, F11). *)
 From Coq Require Import List.
-From SV Require Import Spec.Spec Lemmas.Logic Lemmas.Lines Lemmas.Subset.
+From SV Require Import Spec.Spec Lemmas.Logic Lemmas.Lines Lemmas.Subset Lemmas.SubsetComplete.
 Open Scope Q_scope.
 
 Theorem C03_whole_contains_all : forall b, contains_shape SWhole b = Ok true.
@@ -62,6 +64,32 @@ Theorem C03_curve_in_shape_not_out : forall self j b,
   forall s t, In s j -> 0 <= t -> t <= 1 -> region_simple self (eval s t) <> ROut.
 Proof. exact simple_has_jordan_not_out. Qed.
 Print Assumptions C03_curve_in_shape_not_out.
+(* COMPLETENESS of the closed curve-in-shape test (boundary flag true), with no general-position
+   hypothesis: if every point of J is inside or on the boundary, the library answers True -- it
+   never raises and never answers False on a contained curve. *)
+Theorem C03_curve_in_shape_complete : forall self j,
+  all_lines self = true -> closed_chain self = true -> all_lines j = true ->
+  (forall p, curve_pt j p -> tol_exact self p) ->
+  (forall s t, In s j -> 0 <= t -> t <= 1 ->
+     region_simple self (eval s t) = RIn \/ region_simple self (eval s t) = RBdry) ->
+  simple_has_jordan self j true = Ok true.
+Proof. exact simple_has_jordan_complete. Qed.
+(* hence, in general position, `J in A` for a simple polygonal A DECIDES "every point of J is a
+   point of (closed) A" *)
+Theorem C03_curve_in_shape_iff : forall self j,
+  all_lines self = true -> closed_chain self = true -> all_lines j = true ->
+  general_position j self ->
+  (forall p, curve_pt j p -> tol_exact self p) ->
+  (forall p, curve_pt j p -> region_simple self p <> RUndef) ->
+  (simple_has_jordan self j true = Ok true <->
+   forall s t, In s j -> 0 <= t -> t <= 1 ->
+     region_simple self (eval s t) = RIn \/ region_simple self (eval s t) = RBdry).
+Proof. exact simple_has_jordan_iff. Qed.
+Print Assumptions C03_curve_in_shape_complete.
+Print Assumptions C03_curve_in_shape_iff.
+Example C03_iff_nonvacuous : simple_has_jordan big small true = Ok true.
+Proof. exact small_in_big_complete. Qed.
+
 (* non-vacuity: all hypotheses are decidable for concrete data (Subset.simple_has_jordan_sound_checked);
    a square inside a square, a diamond touching the four edges with its vertices, and a triangle
    cut in the middle of an edge by the reflex vertex of an L-shaped hexagon all meet them *)
